@@ -205,7 +205,7 @@ def main() -> int:
     rep = vlib.Report('C15', 'translation_validation', tier)
     ps = program_set(tier, vlib.seed(), samples_quick=40, samples_thorough=600)
     rng = random.Random(vlib.seed() + 15)
-    pool = ps['fixed'] + ps['conditional'][:: (8 if tier == 'quick' else 2)] + ps['sampled'] + \
+    pool = ps['fixed'] + ps['verbatim'] + ps['conditional'][:: (8 if tier == 'quick' else 2)] + ps['sampled'] + \
         (rng.sample(ps['exhaustive'], min(len(ps['exhaustive']), 120)) if tier == 'quick' else ps['exhaustive'][::4])
     variants = VARIANTS if tier == 'thorough' else ['build', 'exec_definition', 'exec_CODE', 'build_untyped', 'identity_converter', 'wrapper_converter']
     from gram.enum import fork_nodes
